@@ -587,6 +587,31 @@ func run(ctx *core.Ctx) error {
 		}
 		recs = append(recs, evs...)
 	}
+	// mid-line header sweep: a long stream whose data has "1 0 obj 99 endobj"
+	// in the middle of a line (not line-initial: inside the quantifier), at
+	// every offset of a 1000-byte period, so that it falls on every position
+	// relative to the scan's search windows; the whole file and one prefix
+	midN := ctx.Pick(1000, 2000)
+	for k := 0; k < midN; k++ {
+		sp := docSpec{ctx.Seed*1000 + 600 + int64(k%5), shared.DocOptions{Version: pdf.V1_4, Seekable: k%2 == 0, Objects: 3, MinStreams: 1,
+			Bodies: []shared.BodyKind{shared.BodyBig}, BigSize: 2400, MidHeaderAt: 300 + k}, fmt.Sprintf("midheader-%d", 300+k)}
+		doc, err := shared.GenerateDoc(sp.Seed, sp.Opt)
+		if err != nil {
+			return core.Infra("generate %s: %v", sp.Name, err)
+		}
+		t, err := buildTruth(doc, doc.Bytes, false)
+		if err != nil {
+			return err
+		}
+		di := len(truths)
+		truths = append(truths, t)
+		specs = append(specs, sp)
+		evs := enumerateCuts(ctx, t, st, []int{len(t.data), len(t.data) - 7})
+		for i := range evs {
+			evs[i].D = di + 1
+		}
+		recs = append(recs, evs...)
+	}
 	ctx.Logf("length sweep: %d documents with one stream of 1030..%d bytes, crash points between the stream and the end of its length object", sweepN, 1029+sweepN)
 
 	if err := judgeAndReport(ctx, recs, truths, specs, rules); err != nil {
@@ -728,6 +753,13 @@ func enumerateWindow(ctx *core.Ctx, t *truth, st *runStats) []event {
 	for c := range cuts {
 		list = append(list, c)
 	}
+	sort.Ints(list)
+	return enumerateCuts(ctx, t, st, list)
+}
+
+// enumerateCuts observes the given crash points (one event each).
+func enumerateCuts(ctx *core.Ctx, t *truth, st *runStats, list []int) []event {
+	n := len(t.data)
 	sort.Ints(list)
 	obs := make([]observation, len(list))
 	var wg sync.WaitGroup
